@@ -688,7 +688,8 @@ func (c *d13Case) savepointStep(s *d13Sess) {
 // ---------------------------------------------------------------- known causes attached to a statement, endings
 
 // known cause under which a divergence between the engine's and the reference's verdict on this statement is reported
-func (c *d13Case) stmtCause(st *d13Stmt, db *d13DB) string {
+// (errClass: class of the engine's error, "" when the statement succeeded)
+func (c *d13Case) stmtCause(st *d13Stmt, db *d13DB, errClass string) string {
 	switch {
 	case st.isViewOrSeq():
 		return c.vTaint[st.T]
@@ -699,8 +700,10 @@ func (c *d13Case) stmtCause(st *d13Stmt, db *d13DB) string {
 	if t != nil && t.CkStale {
 		return ":check-references-renamed-column"
 	}
-	if t != nil && len(t.Checks) > 0 && (st.K == "drop-table" || st.K == "truncate") {
-		return ":drop-table-with-check-constraint" // the cleanup deletes catalog keys built from the constraint NAME; they are stored under the constraint ID
+	if t != nil && len(t.Checks) > 0 && (st.K == "drop-table" || st.K == "truncate") && errClass == "key-not-found" {
+		// R22, repaired (known_findings.json → fixed): DropTableStmt deleted the catalog keys of the CHECK constraints under the constraint
+		// NAME, they are stored under the constraint ID. The reference expects the statement to succeed; the exact symptom keeps its signature
+		return ":drop-table-with-check-constraint"
 	}
 	return ""
 }
@@ -833,7 +836,8 @@ func (c *d13Case) k1Latent(alt *d13DB) {
 // DDL statement, session 1 observes and probes while it is open, then the transaction ends in the given way and a fresh
 // session observes and probes again.
 var d13MatrixKinds = []string{"create-table", "drop-table", "add-column", "drop-column", "rename-column", "rename-table", "create-index", "create-unique-index",
-	"drop-index", "drop-constraint", "set-not-null", "drop-not-null", "truncate", "create-view", "drop-view", "create-seq", "drop-seq"}
+	"drop-index", "drop-constraint", "set-not-null", "drop-not-null", "truncate", "create-view", "drop-view", "create-seq", "drop-seq",
+	"drop-table-with-check", "truncate-with-check", "drop-index-then-drop-column", "drop-index-of-doubly-indexed-column"}
 
 var d13MatrixEndings = []string{"commit", "rollback", "failed-statement", "conflict-at-commit", "session-closed", "rollback-to-savepoint"}
 
@@ -860,8 +864,8 @@ func (c *d13Case) matrixCase(kind, ending string, warm bool) {
 	r.Count(fmt.Sprintf("ddl.matrix.%s.%s.warm=%v", kind, ending, warm))
 	c.lastWhat = "on the fresh engine"
 	a, b := c.sess[0], c.sess[1]
-	// objects: tc has a NOT NULL column, a nullable one, a CHECK and a secondary index; tp is plain (DROP TABLE / TRUNCATE of a table with
-	// a CHECK always fail, R22); an empty table for CREATE UNIQUE INDEX; a view and a sequence
+	// objects: tc has a NOT NULL column, a nullable one, a CHECK and a secondary index; tp is plain (DROP TABLE / TRUNCATE are driven on both:
+	// with a CHECK they always failed before the repair of R22); an empty table for CREATE UNIQUE INDEX; a view and a sequence
 	tc := &d13Stmt{K: "create-table", T: "tc", Cols: []d13Col{{Name: "a", Ty: "INTEGER", NotNull: true}, {Name: "b", Ty: "INTEGER"}, {Name: "s", Ty: "VARCHAR", Len: 16}, {Name: "n", Ty: "INTEGER"}},
 		Checks: []d13Check{{Name: "ckb", Col: "b", Op: ">=", K: 0}}}
 	tp := &d13Stmt{K: "create-table", T: "tp", Cols: []d13Col{{Name: "p", Ty: "INTEGER"}, {Name: "q", Ty: "VARCHAR", Len: 12}}}
@@ -873,6 +877,9 @@ func (c *d13Case) matrixCase(kind, ending string, warm bool) {
 		{K: "insert", T: "tp", ID: 1, Names: []string{"p", "q"}, Vals: []d13Val{{i: 30}, {isStr: true, s: "y1"}}},
 		{K: "create-view", T: "vw", T2: "tp"},
 		{K: "create-seq", T: "qs"},
+	}
+	if kind == "drop-index-of-doubly-indexed-column" {
+		setup = append(setup, &d13Stmt{K: "create-index", T: "tc", ICols: []string{"s", "b"}}) // s stays indexed when tc(s) is dropped
 	}
 	c.nextID, c.nextName, c.nextVal = 10, 100, 100
 	c.quiet = true
@@ -923,6 +930,13 @@ func (c *d13Case) matrixCase(kind, ending string, warm bool) {
 		st = &d13Stmt{K: "create-seq", T: "qn"}
 	case "drop-seq":
 		st = &d13Stmt{K: "drop-seq", T: "qs"}
+	case "drop-table-with-check": // the table with the CHECK, the NOT NULL column, the secondary index and two rows
+		st = &d13Stmt{K: "drop-table", T: "tc"}
+	case "truncate-with-check":
+		st = &d13Stmt{K: "truncate", T: "tc"}
+	case "drop-index-then-drop-column", "drop-index-of-doubly-indexed-column":
+		// R24 (repaired): inTxStmt compares COLUMNS('tc') inside the transaction right after the DROP INDEX (columnsAfterDropIndex)
+		st = &d13Stmt{K: "drop-index", T: "tc", ICols: []string{"s"}}
 	}
 	if st == nil || c.dead {
 		return
@@ -951,6 +965,9 @@ func (c *d13Case) matrixCase(kind, ending string, warm bool) {
 		a.sps = append(a.sps, d13SP{name: "sa", view: a.view.clone(), n: len(a.prog)})
 	}
 	c.inTxStmt(a, st)
+	if kind == "drop-index-then-drop-column" && !c.dead && a.inTx {
+		c.inTxStmt(a, &d13Stmt{K: "drop-column", T: "tc", C: "s"}) // no index needs the column any more
+	}
 	if c.dead || !a.inTx {
 		return
 	}
